@@ -32,7 +32,7 @@ def relation_ok(r, c, v, nf):
 def res_failed_here(res, c):
     return bool(res.failures) and res.failures[-1]['case'].get('vals') is not None and res.failures[-1]['case'].get('_id') == id(c)
 
-def check_relations(cases, res, stratum):
+def check_relations(cases, res, stratum, keep_array=False):
     for c in cases:
         io = S.run_impl_store(c)
         s, nw, nf, r = c['s'], c['nw'], c['nf'], c['r']
@@ -53,7 +53,9 @@ def check_relations(cases, res, stratum):
             if sc.denominator != 1: nontriv = True
             ok, why = relation_ok(r, code, v, nf)
             if not ok:
-                one = dict(c); one['vals'] = [c['vals'][j]]
+                one = dict(c)
+                if keep_array: one['index_in_original'] = j          # (the neighbours are part of the failing input)
+                else: one['vals'] = [c['vals'][j]]
                 res.fail(one, 'C05: rounding contract violated (%s)' % why, expected='relation holds', got={'code': code, 'v': str(v)})
                 break
         if n_inside == len(c['vals']) and io['status'][:2] != (False, False) and not res_failed_here(res, c):
@@ -115,6 +117,18 @@ def shard(shard, nshards, rng, tier, extra):
         cases.append({'s': s, 'nw': nw, 'nf': nf, 'r': rng.choice(RMODES), 'o': rng.choice(OMODES), 'carrier': rng.choice(S.carriers_for(vals, rng)),
                       'route': rng.choice(S.ROUTES), 'vals': vals, 'setmode': rng.choice(['slice', 'each'])})
     check_relations(cases, res, 'B:random-formats')
+    # ---- (T) n_frac < 0: non-zero floats whose scaled value underflows to zero, in arrays together with exact zeros (of either sign) and
+    # representable values, in any order: a repair applied to the vanishing element must not touch its neighbours
+    cases = []
+    for _ in range((600 if tier == 'quick' else 15000) // nshards):
+        s, nw, nf = S.random_format(rng); nf = -rng.randint(1, 8)
+        vals = [rng.choice([1, -1]) * rng.choice([5e-324, 2.0 ** -1074, 2.0 ** rng.randint(-1074, -1060), 3 * 2.0 ** -1074]) for _k in range(rng.choice([1, 1, 2]))]
+        vals += [rng.choice([0.0, -0.0, 0.0, float(rng.randint(0, 3) * 2 ** -nf), float(2 ** (-nf - 1))]) for _k in range(rng.choice([1, 2, 3]))]
+        if not s: vals = [abs(v) for v in vals]
+        rng.shuffle(vals)
+        cases.append({'s': s, 'nw': nw, 'nf': nf, 'r': rng.choice(RMODES), 'o': rng.choice(OMODES), 'carrier': rng.choice(['arr:float64', 'list', 'tuple']),
+                      'route': rng.choice(S.ROUTES[:3]), 'vals': vals, 'setmode': 'slice'})
+    check_relations(cases, res, 'T:vanishing-next-to-zeros', keep_array=True)
     idempotence(rng, res, tier, shard, nshards)
     res.exhaustive = True
     return res
